@@ -127,7 +127,7 @@ Calls(o) ==
       \cup (IF k # "sum" THEN St("normsq", {[x |-> 0]}) ELSE {})
       \cup (IF k \in {"dense", "sparse"}
             THEN St("contract", {a \in ContractArgs : a.a # a.b /\ ShapeC[a.a + 1] = ShapeC[a.b + 1]}) ELSE {})
-      \cup (IF k = "dense" THEN St("collapse", CollapseArgs({"sum", "max", "min", "halfsum"})) ELSE {})
+      \cup (IF k = "dense" THEN St("collapse", CollapseArgs({"sum", "max", "min", "halfsum", "wsum"})) ELSE {})
       \* sparse collapse applies the reducer to the STORED values of a slice (by design); this coincides with the
       \* reducer over the whole slice for "sum" always, for "max" on non-negative and for "min" on non-positive data
       \cup (IF k = "sparse" THEN St("collapse", CollapseArgs({"sum"}
